@@ -120,6 +120,8 @@ type Conf struct {
 	Validate string   `json:"validate,omitempty"`
 	Optional bool     `json:"optional,omitempty"`
 	Embed    []string `json:"embed,omitempty"`
+	// Also: the same field additionally carries this custom tag (two recognised tags on one field).
+	Also *Custom `json:"also,omitempty"`
 }
 
 type Instance struct {
@@ -166,6 +168,9 @@ type Rule struct {
 type Scanner struct {
 	ID  string `json:"id"`
 	Tag string `json:"tag"`
+	// NodeType: "" = a property type of its own; "Configuration" = the scanner files its
+	// properties under the built-in configuration property type.
+	NodeType string `json:"nodeType,omitempty"`
 }
 
 type Source struct {
@@ -178,6 +183,9 @@ type Source struct {
 	Doc        map[string]any `json:"doc,omitempty"`
 	// Fault: "", "error", "empty", "garbage", "missing", "isdir"
 	Fault string `json:"fault,omitempty"`
+	// Late: the source is added (Configure.AddLoaders) after Run and the configuration is
+	// initialised a second time (reload).
+	Late bool `json:"late,omitempty"`
 }
 
 func (p *Program) TypeByName(n string) *Type {
